@@ -741,6 +741,166 @@ def run_recv(chk, rig, scs, label):
             chk.violation(sig, what, sc)
 
 
+# ---------------------------------------------------------------- receive-queue ids
+def _rxq_phase(rng, first_idx, n, chans, pack, with_xfers, pop, order):
+    seq = []
+    for i in range(n):
+        idx = first_idx + i
+        chan = chans[i % len(chans)]
+        data = bytes([0x9f]) + bytes(((idx * 31 + k * 7) % 251) + 1 for k in range(2 + (idx * 5) % 40)) + bytes([idx % 251 + 1, 0xff])
+        if with_xfers and i % 2 == 1:
+            chunks = split_chunks(rng, data, rng.choice([1, 2, 3]))
+            msgs = [['seg', 1000 + idx, len(data), si, si == len(chunks) - 1, ch.hex()] for si, ch in enumerate(chunks)]
+        else:
+            msgs = [['bundle', data.hex()]]
+        seq += [(chan, m) for m in msgs]
+    if pack == 'each':
+        groups = [[x] for x in seq]
+    elif pack == 'one':
+        groups = [[x for x in seq if x[0] == c] for c in chans]
+    else:
+        groups, i = [], 0
+        while i < len(seq):
+            g = [seq[i]]
+            k = rng.randrange(1, 4)
+            while len(g) < k and i + len(g) < len(seq) and seq[i + len(g)][0] == g[0][0]:
+                g.append(seq[i + len(g)])
+            groups.append(g)
+            i += len(g)
+    frames = []
+    for g in groups:
+        if not g:
+            continue
+        raw = b''
+        for (_c, m) in g:
+            raw += mk_frame(2, [], bytes.fromhex(m[1])) if m[0] == 'bundle' else seg_frame(m[2], m[1], m[3], m[4], bytes.fromhex(m[5]))
+        frames.append({'chan': list(g[0][0]), 'hex': raw.hex(), 'msgs': [m for (_c, m) in g]})
+    return {'frames': frames, 'pop': pop, 'order': order}
+
+
+def rx_queue_histories(rng, tier):
+    hs = []
+    for n in (2, 3, 11):
+        for chans in ([CHANS[0]], [CHANS[0], CHANS[1]]):
+            for pack in ('one', 'each'):
+                hs.append({'kind': 'rxq', 'phases': [_rxq_phase(rng, 0, n, chans, pack, n == 3, 'all', 'listed')]})
+    for chans in ([CHANS[0]], [CHANS[0], CHANS[2]]):
+        hs.append({'kind': 'rxq', 'phases': [
+            _rxq_phase(rng, 0, 3, chans, 'one', False, 'half', 'listed'),
+            _rxq_phase(rng, 3, 3, chans, 'each', True, 'all', 'reversed'),
+            _rxq_phase(rng, 6, 2, chans, 'one', False, 'all', 'listed')]})
+    for _ in range(150 if tier == 'thorough' else 12):
+        phases, idx = [], 0
+        for _ph in range(rng.randrange(1, 4)):
+            n = rng.choice([2, 2, 3, 5, 11])
+            phases.append(_rxq_phase(rng, idx, n, rng.choice([[CHANS[0]], [CHANS[0], CHANS[1]], list(CHANS)]),
+                                     rng.choice(['one', 'each', 'mixed']), rng.random() < 0.5,
+                                     rng.choice(['none', 'half', 'all']), rng.choice(['listed', 'reversed', 'shuffled'])))
+            idx += n
+        phases[-1]['pop'] = 'all'
+        hs.append({'kind': 'rxq', 'phases': phases})
+    return hs
+
+
+def run_rx_queue_history(rig, hist, rng):
+    ''' several received bundles left unpopped, then the queue is read and every listed id popped, twice '''
+    ag = rig.agent(None)
+    ref = Ref()
+    bad, trace, announced, popped = [], [], [], []
+    nsig = 0
+
+    def note(sig, what):
+        if not any(b[0] == sig for b in bad):
+            bad.append((sig, what))
+
+    for phase in hist['phases']:
+        for f in phase['frames']:
+            ifn, peer, local = f['chan']
+            conv = rig.ba.EthernetChannel(local_if=ifn, peer_address=rig.mac.EUI48(peer), local_address=rig.mac.EUI48(local))
+            try:
+                ag._recv_msg(None, bytes.fromhex(f['hex']), conv)
+            except Exception as err:   # noqa
+                note('rx-exception', '_recv_msg raised %s on a well-formed frame' % type(err).__name__)
+            for m in f['msgs']:
+                if m[0] == 'bundle':
+                    ref.bundle(tuple(f['chan']), bytes.fromhex(m[1]))
+                else:
+                    ref.seg(tuple(f['chan']), m[1], m[3], m[4], bytes.fromhex(m[5]))
+            sg = [args for (_p, name, _s, args) in ag._verif_signals if name == 'recv_bundle_finished']
+            if len(sg) != len(ref.queue):
+                note('rx-queue-mismatch', '%d recv_bundle_finished signals for %d complete bundles' % (len(sg), len(ref.queue)))
+            for k in range(nsig, min(len(sg), len(ref.queue))):
+                bid, length, meta = str(sg[k][0]), int(sg[k][1]), dict(sg[k][2])
+                chan, data = ref.queue[k]
+                if length != len(data) or meta.get('address') != chan[1]:
+                    note('rx-signal-wrong', 'bundle %d announced as (%s, %d, %s), expected length %d from %s' % (k, bid, length, meta, len(data), chan[1]))
+                if bid in [a[0] for a in announced]:
+                    note('rx-id-reused', 'recv_bundle_finished announced id %r for bundle %d; the same id was announced for bundle %d'
+                         % (bid, k, [a[0] for a in announced].index(bid)))
+                announced.append((bid, chan, data))
+            nsig = len(sg)
+            listed = [str(x) for x in ag.recv_bundle_get_queue()]
+            trace.append({'frame': f['hex'][:60], 'queue': listed})
+            want = [a[0] for a in announced if a[0] not in popped]
+            if listed != want:
+                note('rx-queue-mismatch', 'recv_bundle_get_queue() = %s, announced and not yet popped = %s' % (listed, want))
+        if phase['pop'] == 'none':
+            continue
+        todo = [str(x) for x in ag.recv_bundle_get_queue()]
+        if phase['order'] == 'reversed':
+            todo.reverse()
+        elif phase['order'] == 'shuffled':
+            rng.shuffle(todo)
+        if phase['pop'] == 'half':
+            todo = todo[::2]
+        for bid in todo:
+            exp = [a for a in announced if a[0] == bid]
+            try:
+                got = bytes(ag.recv_bundle_pop_data(bid))
+                trace.append({'pop': bid, 'result': got.hex()[:60]})
+                if not exp:
+                    note('rx-queue-mismatch', 'the queue listed id %r that was never announced' % bid)
+                elif got != exp[0][2]:
+                    note('pop-returns-other-transfer', 'recv_bundle_pop_data(%r) returned %d octets that are not the bundle first announced under that id'
+                         % (bid, len(got)))
+            except Exception as err:   # noqa
+                trace.append({'pop': bid, 'result': 'raised:' + type(err).__name__})
+                note('rx-pop-fails', 'recv_bundle_pop_data(%r) raised %s although the queue listed that id' % (bid, type(err).__name__))
+            popped.append(bid)
+        for bid in todo:
+            try:
+                got = bytes(ag.recv_bundle_pop_data(bid))
+                note('rx-second-pop-succeeds', 'a second recv_bundle_pop_data(%r) returned %d octets' % (bid, len(got)))
+            except KeyError:
+                pass
+            except Exception as err:   # noqa
+                trace.append({'pop': bid, 'result': 'raised:' + type(err).__name__})
+        listed = [str(x) for x in ag.recv_bundle_get_queue()]
+        want = [a[0] for a in announced if a[0] not in popped]
+        if listed != want:
+            note('rx-queue-mismatch', 'after popping: recv_bundle_get_queue() = %s, announced and not yet popped = %s' % (listed, want))
+    lost = [k for k, a in enumerate(announced) if a[0] not in popped]
+    if lost and hist['phases'][-1]['pop'] == 'all':
+        note('rx-queue-mismatch', 'announced bundles %s were never offered for popping' % lost[:5])
+    return trace, bad
+
+
+def rx_queue_cases(chk, rng, tier, prefix):
+    ''' → [(signature, what, replay)]; the BTP-U twin of props.c13.rx_queue_cases '''
+    rig = Rig()
+    out = []
+    for hist in rx_queue_histories(rng, tier):
+        trace, bad = run_rx_queue_history(rig, hist, rng)
+        chk.case({'rxq': [[len(ph['frames']), ph['pop'], ph['order']] for ph in hist['phases']]}, nontrivial=True,
+                 sample=len(hist['phases']) > 1)
+        chk.cov['traces_validated_against_impl'] += 1
+        chk.count('rxq:histories')
+        chk.count('rxq:pops', sum(1 for t in trace if 'pop' in t))
+        for (sig, what) in bad:
+            out.append(('%s:%s' % (prefix, sig), what, hist))
+    return out
+
+
 def timing_probe(chk, rig):
     ''' DESIGN §7 C20 "finding, timing": the per-segment timeouts are never cancelled. A transfer that
     reuses (channel, xfer_num) within RX_XFER_TIMEOUT_MS of an earlier, completed one loses what it has
@@ -782,6 +942,8 @@ def run(chk):
     run_build(chk, rig)
     run_recv(chk, rig, recv_scenarios(chk, rig), 'reasm')
     run_recv(chk, rig, malformed_scenarios(chk), 'malformed')
+    for (sig, what, rep) in rx_queue_cases(chk, chk.rng, chk.tier, 'C20'):
+        chk.violation(sig, what, rep)
     timing_probe(chk, rig)
 
 
@@ -824,6 +986,13 @@ def replay(chk, path):
         for sig, what in viol:
             print('MONITOR %s: %s' % (sig, what))
         return 1 if viol else 0
+    if rep.get('kind') == 'rxq':
+        trace, bad = run_rx_queue_history(rig, rep, chk.rng)
+        for t in trace:
+            print(json.dumps(t)[:300])
+        for sig, what in bad:
+            print('MONITOR %s: %s' % (sig, what))
+        return 1 if bad else 0
     if rep.get('kind') == 'build':
         specs = []
         for m in rep['msgs']:
